@@ -27,4 +27,16 @@ TEXTS = {
           "Taint inlining bound 4; an exceeded bound is reported as undecided (fails).",
   "technique": "abstract evaluation of guards over a finite path partition + interprocedural SSA taint with sanitizers (go/ssa, go/cfg)",
  },
+ "C09": {
+  "text": "Decides the ordering/typestate skeleton of the cache protocol: the completion marker (PutPath of externalModuleDataFileName; the tar archive Put in tar mode) "
+          "carries PutWithAtomic; no write is reachable after it; it executes only on the nil edge of the error of every fallible call that can precede it (a failed "
+          "copy or side-file write can never be followed by the marker; only the marker re-read may continue on its not-exist classification); readers build ModuleData "
+          "only after a successful marker read, unmarshal and isValid()==true, and report 'found' only on err==nil; every path to a marker read or cache write passes a "
+          "lock acquisition (or the tar branch), a marker re-check lies between Lock and the first write, every Unlocker has a dominating deferred Unlock; every "
+          "ModuleData accessor uses its raw getter only on the nil edge of checkDigest, whose nil return lies only on the DigestEqual-true edge comparing the pinned "
+          "digest with one recomputed from content; the provider re-reads after put and errors on a still-missing key; R-DEFER/R-ERRUSE on the anchored packages. "
+          "This covers every crash *ordering* and failure position the code can produce, which example tests never visit.",
+  "note": "Not decided: crash instants inside one storage operation, I/O error sequences, cross-process interleavings under flock, what a reader sees mid-rename; those need execution or a model.",
+  "technique": "SSA guard/edge dominance (must-pass-through, nil-edge control dependence) + CFG reachability-avoiding for lock discipline",
+ },
 }
